@@ -526,6 +526,19 @@ def dget(l, k, dflt):
     return z3.If(h, dlookup(l, k), dflt)
 
 
+def vcontains(l, x):
+    """membership with the (inductively valid) distribution over ++ and concrete cells applied"""
+    l = z3.simplify(l)
+    n = l.decl().name() if z3.is_app(l) else ""
+    if n == "VNil":
+        return z3.BoolVal(False)
+    if n == "VCons":
+        return z3.Or(l.arg(0) == x, vcontains(l.arg(1), x))
+    if n == "vl_concat":
+        return z3.Or(vcontains(l.arg(0), x), vcontains(l.arg(1), x))
+    return vl_contains(l, x)
+
+
 def vconcat(a, b):
     """list concatenation with the unit laws applied / recorded (concat(a, nil) = a needs induction on a)"""
     a, b = z3.simplify(a), z3.simplify(b)
